@@ -177,6 +177,71 @@ class Broken(Harness):
             yield 'returned-not-exited-in-target-list-mode', not isinstance(r, Exc)
 
 
+class LevelFold(Harness):
+    """status == fold of EVERY line the report prints at failure / warning level (not only the per-algorithm notes): an SSH-1 report, a server that still offers
+    protocol 1 (1.99 banner), a banner with non-ASCII characters - each with otherwise flawless algorithms - and the flawless peer itself as the control."""
+    prop, ob = PROP, 'O5'
+    width = 64
+    GOODL = {'kex': ['mlkem768x25519-sha256', 'kex-strict-s-v00@openssh.com'], 'key': ['ssh-ed25519'], 'enc': ['aes256-gcm@openssh.com'], 'mac': ['hmac-sha2-256-etm@openssh.com']}
+
+    def __init__(self, variant, json=False):
+        self.variant, self.json = variant, json
+        self.name = 'levelfold-%s%s' % (variant, '-json' if json else '')
+        self.enum_cap = 200          # the SSH-1 variant enumerates all 128 cipher masks
+
+    def params(self):
+        return {'variant': self.variant, 'json': self.json}
+
+    def inputs(self):
+        return {'sw': zx.fresh_str('sw', 2, ((0x61, 0x7A),)), 'mask': zx.fresh_int('mask', 0, 0x7F)}
+
+    def run(self, M, inp):
+        calls = []
+
+        class RB(M.outputbuffer.OutputBuffer):
+            def fail(self_, t, **k):
+                calls.append('fail')
+                return super().fail(t, **k)
+
+            def warn(self_, t, **k):
+                calls.append('warn')
+                return super().warn(t, **k)
+        v = self.variant
+        if v == 'ssh1-report':
+            mask = inp['mask']
+            mask = mask if isinstance(mask, int) else zx.cur().concretize(mask.e)
+            pkm = M.ssh1_publickeymessage.SSH1_PublicKeyMessage(b'\x00' * 8, (768, 3, 5), (1024, 3, 7), 2, mask, 0x0C)
+            r = OL.run_output(M, None, json=self.json, sw='OpenSSH_1.2.3', pkm=pkm, protocol=(1, 5), out_factory=RB)
+        elif v == 'proto-1.99':
+            r = OL.run_output(M, self.GOODL, json=self.json, sw=inp['sw'], protocol=(1, 99), out_factory=RB)
+        elif v == 'nonascii-banner':
+            r = OL.run_output(M, self.GOODL, json=self.json, sw=inp['sw'], out_factory=RB, valid_ascii=False)
+        else:
+            r = OL.run_output(M, self.GOODL, json=self.json, sw=inp['sw'], out_factory=RB)
+        if isinstance(r['ret'], Exc):
+            return {'exc': r['ret']}
+        return {'ret': r['ret'], 'nfail': calls.count('fail'), 'nwarn': calls.count('warn')}
+
+    def check(self, inp, obs):
+        if 'exc' in obs:
+            yield 'no-exception', False
+            return
+        want = 3 if obs['nfail'] else (2 if obs['nwarn'] else 0)
+        if self.variant == 'clean':
+            yield 'flawless-peer-prints-no-finding(control)', obs['nfail'] == 0 and obs['nwarn'] == 0
+        elif not self.json:
+            yield 'variant-prints-a-finding(reachability)', obs['nfail'] + obs['nwarn'] > 0
+        if not self.json:
+            yield 'status==fold-of-all-failure/warning-level-lines', obs['ret'] == want
+        else:
+            yield 'json-status==text-status', obs['ret'] == {'ssh1-report': 3, 'proto-1.99': 3, 'nonascii-banner': 2, 'clean': 0}[self.variant]
+
+    def classify(self, inp, obs, label):
+        if label.startswith('status==fold') or label.startswith('json-status'):
+            return 'general-section-findings-not-counted:%s' % self.variant
+        return label
+
+
 class PolicyStatus(Harness):
     """real audit() in policy mode: status 0 iff the verdict is passed, 3 iff failed."""
     prop, ob = PROP, 'O4'
@@ -252,6 +317,9 @@ def tasks(tier):
             T.append(Broken(st, multi))
             if st in ('banner-only', 'truncated-kexinit', 'wrong-type', 'garbage-kexinit', 'short-kexinit-payload-30', 'no-banner') or tier != 'quick':
                 T.append(Broken(st, multi, True))
+    for v in ('clean', 'ssh1-report', 'proto-1.99', 'nonascii-banner'):
+        T.append(LevelFold(v))
+        T.append(LevelFold(v, True))
     T.append(PolicyStatus(False))
     T.append(PolicyStatus(True))
     return T
@@ -263,6 +331,8 @@ def harness_by_name(name, params):
         return Fold(params['mix'])
     if k == 'broken':
         return Broken(params['stage'], params['multi'], params.get('json', False))
+    if k == 'levelfold':
+        return LevelFold(params['variant'], params.get('json', False))
     if k == 'policy':
         return PolicyStatus(params['json'])
     raise KeyError(name)
